@@ -90,6 +90,10 @@ class Network:
         kind, param = self.phase_at(now)
         if self.blackhole or kind == "blackout":
             return []
+        if kind == "noping":
+            # a selective loss: every ping (request or answer) is lost, everything else gets through
+            if b"APING" in data:
+                return []
         if kind == "lossy":
             if self.rng.random() < param:
                 return []
